@@ -1,5 +1,6 @@
 import XvcPipeData.SchemaLemmas
 import XvcPipeData.SchemaReach
+import XvcPipeData.ReaderLemmas
 /-!
   # C14 — Pipeline export and import are inverse
 
@@ -13,7 +14,11 @@ import XvcPipeData.SchemaReach
     `C14_reachable_invariants`).
 
   The serde encoders (JSON / YAML text) are outside the model; they are exercised differentially by
-  `lib/c14.py`.
+  `lib/c14.py`.  The boundary is explicit: everything xvc itself does to the document text before the
+  parser sees it (`cmd_import`: `fs::read_to_string` for `--file`, the `input.lines()` loop for stdin)
+  is modelled in `Reader.lean` and covered by the `C14_reader_…` theorems at the end of this file; what
+  stays trusted is `serde_json::from_str ∘ serde_json::to_string_pretty` and
+  `serde_yaml::from_str ∘ serde_yaml::to_string` on one and the same string.
 -/
 namespace PipeData
 
@@ -373,6 +378,183 @@ theorem C14_roundtrip_needs_unique_names :
 
 end examples
 
+/-! ## The text layer: what `cmd_import` hands to the parser
+
+  `s : List Char` is a document text (valid UTF-8); `embed s` the same text as an input stream; a
+  general `List Sym` stream may contain bytes that are not valid UTF-8 (`Sym.bad`). -/
+
+namespace Reader
+
+/-- `--file`: the parser receives the file verbatim, for every text. -/
+theorem C14_reader_file_verbatim (s : List Char) : readFile (embed s) = some s := decode_embed s
+
+/-- `--file`: the import is abandoned (nothing parsed, nothing written) exactly when the file is not
+    valid UTF-8. -/
+theorem C14_reader_file_rejects_iff (inp : List Sym) : readFile inp = none ↔ Sym.bad ∈ inp :=
+  decode_none_iff inp
+
+/-- **stdin, exact characterisation for every text**: the parser receives the text with every `'\r'`
+    that immediately precedes a `'\n'` removed and with a final `'\n'` appended if the (non-empty) text
+    lacks one.  Nothing else: no line is dropped, merged, trimmed or reordered. -/
+theorem C14_reader_stdin_exact (s : List Char) : readStdin (embed s) = ensureNl (dropCrLf s) := by
+  have h := stdinLoop_embed (s.length + 1) s [] (by omega)
+  simpa [readStdin, embed, spec] using h
+
+/-- What `ensureNl` does, in closed form. -/
+theorem C14_reader_final_newline (s : List Char) :
+    (s = [] ∨ s.getLast? = some LF → ensureNl s = s) ∧
+    (s ≠ [] → s.getLast? ≠ some LF → ensureNl s = s ++ [LF]) := by
+  refine ⟨?_, ensureNl_of_getLast_ne s⟩
+  rintro (h | h)
+  · subst h; rfl
+  · exact ensureNl_of_getLast s h
+
+/-- **C14, text layer.**  For every document text without `"\r\n"` (every text `xvc pipeline export`
+    writes: both encoders escape `'\r'`): through `--file` the parser receives exactly the document;
+    through stdin it receives exactly the document if that ends with a newline (every YAML export), and
+    the document plus one final `'\n'` otherwise (every JSON export written with `--file`; trailing white
+    space for a JSON parser).  In particular every line — every blank line of a block scalar, every
+    trailing blank line of a `|+` scalar at the end of the document — reaches the parser. -/
+theorem C14_reader_preserves_document (s : List Char) (h : NoCrLf s) :
+    readFile (embed s) = some s ∧
+    readStdin (embed s) = ensureNl s ∧
+    (s = [] ∨ s.getLast? = some LF → readStdin (embed s) = s) ∧
+    (s ≠ [] → s.getLast? ≠ some LF → readStdin (embed s) = s ++ [LF]) := by
+  have e : readStdin (embed s) = ensureNl s := by
+    rw [C14_reader_stdin_exact, show dropCrLf s = s from h]
+  refine ⟨C14_reader_file_verbatim s, e, ?_, ?_⟩
+  · intro hs; rw [e]; exact (C14_reader_final_newline s).1 hs
+  · intro h1 h2; rw [e]; exact (C14_reader_final_newline s).2 h1 h2
+
+/-- The appended newline does not change the sequence of lines: the lines of the string handed to the
+    parser are the lines of the document, in order, blank ones included. -/
+theorem C14_reader_lines_preserved (s : List Char) (h : NoCrLf s) :
+    lineList (readStdin (embed s)) = lineList s := by
+  rw [(C14_reader_preserves_document s h).2.1]
+  by_cases hn : s = []
+  · subst hn; rfl
+  · by_cases hl : s.getLast? = some LF
+    · rw [ensureNl_of_getLast s hl]
+    · rw [ensureNl_of_getLast_ne s hn hl]
+      have h1 : (splitLF s).getLast? ≠ some [] := by
+        intro e
+        rcases splitLF_getLast s e with e' | e'
+        · exact hn e'
+        · exact hl e'
+      unfold lineList
+      rw [splitLF_append_LF]
+      simp [h1]
+
+/-- stdin, arbitrary streams (1/3): the empty stream gives the empty string. -/
+theorem C14_reader_stdin_nil : readStdin [] = [] := rfl
+
+/-- stdin, arbitrary streams (2/3): a newline-terminated first line `l` contributes its text without
+    one trailing `'\r'` — or **nothing, if it is not valid UTF-8** (`unwrap_or_else(|e| … "".to_string())`)
+    — followed by `'\n'`; the rest of the stream is read independently of it. -/
+theorem C14_reader_stdin_line (l post : List Sym) (h : Sym.ch LF ∉ l) :
+    readStdin (l ++ Sym.ch LF :: post) = ((decode l).map stripCr).getD [] ++ [LF] ++ readStdin post := by
+  have hne : (l ++ [Sym.ch LF]).isEmpty = false := by cases l <;> rfl
+  conv => lhs; unfold readStdin
+  simp only [stdinLoop, linesNext, readUntilNl_general l post h, hne, Bool.false_eq_true, if_false,
+    List.nil_append]
+  rw [stdinLoop_readStdin _ post _ (by simp only [List.length_append, List.length_cons]; omega)]
+  rw [decode_append_LF]
+  cases decode l with
+  | none => simp
+  | some b => simp [stripEol_terminated]
+
+/-- stdin, arbitrary streams (3/3): a final line without newline is kept as it is (no `'\r'`
+    stripping) and gets a `'\n'`. -/
+theorem C14_reader_stdin_last_line (l : List Sym) (hl : l ≠ []) (h : Sym.ch LF ∉ l) :
+    readStdin l = (decode l).getD [] ++ [LF] := by
+  have hne : l.isEmpty = false := by cases l with
+    | nil => exact absurd rfl hl
+    | cons a b => rfl
+  have hno : ∀ b : List Char, decode l = some b → stripEol b = b := by
+    intro b hb
+    apply stripEol_noLF
+    intro hm
+    apply h
+    clear hl hne
+    induction l generalizing b with
+    | nil => simp [decode] at hb; subst hb; simp at hm
+    | cons a t ih =>
+      cases a with
+      | bad => simp [decode] at hb
+      | ch c =>
+        simp only [decode, Option.map_eq_some_iff] at hb
+        obtain ⟨b', hb', rfl⟩ := hb
+        simp only [List.mem_cons] at hm ⊢
+        simp only [List.mem_cons, not_or] at h
+        rcases hm with e | e
+        · left; rw [e]
+        · right; exact ih h.2 b' hb' e
+  have hpos : 0 < l.length := List.length_pos_iff.mpr hl
+  conv => lhs; unfold readStdin
+  simp only [stdinLoop, linesNext, readUntilNl_general_noLF l h, hne, Bool.false_eq_true, if_false,
+    List.nil_append]
+  rw [stdinLoop_readStdin _ [] _ (by simpa using hpos)]
+  cases hd : decode l with
+  | none => simp [C14_reader_stdin_nil]
+  | some b => simp [hno b hd, C14_reader_stdin_nil]
+
+/-- Consequence: a line that is not valid UTF-8 is replaced by an empty line; the lines before and
+    after it are unaffected (the same bytes given with `--file` make the import fail:
+    `C14_reader_file_rejects_iff`). -/
+theorem C14_reader_stdin_unreadable_line (l post : List Sym) (h : Sym.ch LF ∉ l) (hb : Sym.bad ∈ l) :
+    readStdin (l ++ Sym.ch LF :: post) = LF :: readStdin post := by
+  rw [C14_reader_stdin_line l post h, (decode_none_iff l).mpr hb]
+  rfl
+
+/-! ### what the stdin loop of the present code does lose (inputs no export produces)
+
+  Replayed on the binary by `lib/c14.py` (stream `reader`, corpus `reader_corpus`). -/
+
+/-- A `'\r'`-terminated line followed by an empty `"\r\n"`-terminated line (`"a\r\r\nb\n"`, two YAML
+    line breaks after `a`): the parser receives `"a\r\nb\n"`, one line break — a blank line is lost on
+    stdin and kept with `--file`. -/
+theorem C14_reader_stdin_crcrlf_counterexample :
+    readStdin (embed ['a', CR, CR, LF, 'b', LF]) = ['a', CR, LF, 'b', LF] ∧
+    readFile (embed ['a', CR, CR, LF, 'b', LF]) = some ['a', CR, CR, LF, 'b', LF] := by decide
+
+/-- A document whose last line has no newline (`"|\n a"`, a clipped block scalar at the very end):
+    stdin hands `"|\n a\n"` to the parser (value `"a\n"`), `--file` hands `"|\n a"` (value `"a"`). -/
+theorem C14_reader_stdin_final_newline_counterexample :
+    readStdin (embed ['|', LF, ' ', 'a']) = ['|', LF, ' ', 'a', LF] ∧
+    readFile (embed ['|', LF, ' ', 'a']) = some ['|', LF, ' ', 'a'] := by decide
+
+/-- A line that is not valid UTF-8: silently an empty line on stdin, an error with `--file`. -/
+theorem C14_reader_stdin_unreadable_counterexample :
+    readStdin [.ch 'a', .ch LF, .ch '#', .bad, .ch LF, .ch 'b', .ch LF] = ['a', LF, LF, 'b', LF] ∧
+    readFile [.ch 'a', .ch LF, .ch '#', .bad, .ch LF, .ch 'b', .ch LF] = none := by decide
+
+/-! ### non-vacuity -/
+
+/-- the text of a YAML export with a literal block scalar that contains a blank line and ends with
+    two (`command: |+\n  a\n\n  b\n\n`): hypothesis `NoCrLf` holds, the text ends with a newline, it has
+    two blank lines -/
+def exYaml : List Char :=
+  ['c', ':', ' ', '|', '+', LF, ' ', ' ', 'a', LF, LF, ' ', ' ', 'b', LF, LF]
+
+example : NoCrLf exYaml ∧ exYaml.getLast? = some LF ∧ (lineList exYaml).count [] = 2 := by decide
+
+/-- … hence stdin hands exactly this text to the parser -/
+example : readStdin (embed exYaml) = exYaml :=
+  (C14_reader_preserves_document exYaml (by decide)).2.2.1 (Or.inr (by decide))
+
+/-- the text of a JSON export (no final newline): hypotheses of the last clause -/
+example : NoCrLf ['{', LF, '}'] ∧ ['{', LF, '}'] ≠ [] ∧ ['{', LF, '}'].getLast? ≠ some LF := by decide
+
+/-- hypotheses of `C14_reader_stdin_line` / `…_unreadable_line` with a non-trivial rest -/
+example : Sym.ch LF ∉ [Sym.ch '#', Sym.bad] ∧ Sym.bad ∈ [Sym.ch '#', Sym.bad] ∧
+    readStdin ([Sym.ch '#', Sym.bad] ++ Sym.ch LF :: embed ['b']) = [LF, 'b', LF] := by decide
+
+/-- hypotheses of `C14_reader_stdin_last_line` -/
+example : [Sym.ch 'a', Sym.ch CR] ≠ [] ∧ Sym.ch LF ∉ [Sym.ch 'a', Sym.ch CR] ∧
+    readStdin [Sym.ch 'a', Sym.ch CR] = ['a', CR, LF] := by decide
+
+end Reader
+
 /-! ## Axiom audit -/
 
 #print axioms C14_export_deterministic
@@ -387,5 +569,18 @@ end examples
 #print axioms C14_import_preserves
 #print axioms C14_reachable_invariants
 #print axioms C14_roundtrip_needs_unique_names
+#print axioms Reader.C14_reader_file_verbatim
+#print axioms Reader.C14_reader_file_rejects_iff
+#print axioms Reader.C14_reader_stdin_exact
+#print axioms Reader.C14_reader_final_newline
+#print axioms Reader.C14_reader_preserves_document
+#print axioms Reader.C14_reader_lines_preserved
+#print axioms Reader.C14_reader_stdin_nil
+#print axioms Reader.C14_reader_stdin_line
+#print axioms Reader.C14_reader_stdin_last_line
+#print axioms Reader.C14_reader_stdin_unreadable_line
+#print axioms Reader.C14_reader_stdin_crcrlf_counterexample
+#print axioms Reader.C14_reader_stdin_final_newline_counterexample
+#print axioms Reader.C14_reader_stdin_unreadable_counterexample
 
 end PipeData
